@@ -14,6 +14,7 @@ import (
 	"os"
 	"sort"
 	"strings"
+	"sync"
 	"time"
 
 	"github.com/DataDog/datadog-traceroute/common"
@@ -520,6 +521,7 @@ type Obs struct {
 	SinkID int
 	Done   bool
 	EndNs  int64
+	ThreadsLeft int // managed threads still alive when the entry point returned (single-chain runs only)
 }
 
 // Hop is the canonical view of a reported hop.
@@ -665,6 +667,8 @@ type Result struct {
 	FDsBefore, FDsAfter int
 }
 
+var warmOnce sync.Once
+
 func countFDs() int {
 	ents, err := os.ReadDir("/proc/self/fd")
 	if err != nil {
@@ -696,6 +700,15 @@ func RunScns(cfg vsched.Config, top ...*Scn) *Result {
 	script := NewScript(scns...)
 	n := Prepare(script, scns...)
 	res := &Result{Net: n, Script: script}
+	warmOnce.Do(func() {
+		if l, err := net.Listen("tcp4", "127.0.0.1:0"); err == nil {
+			l.Close()
+		}
+		if c, err := net.Dial("udp4", "198.18.0.9:9"); err == nil {
+			c.Close()
+		}
+	})
+	res.FDsBefore = countFDs()
 	ports := make([]uint16, len(scns))
 	for i, sc := range scns {
 		if Info(sc.Variant).Kind == "sack" {
@@ -707,7 +720,6 @@ func RunScns(cfg vsched.Config, top ...*Scn) *Result {
 		}
 		res.Obs = append(res.Obs, &Obs{SinkID: -1})
 	}
-	res.FDsBefore = countFDs()
 	if cfg.MaxVirtual == 0 {
 		cfg.MaxVirtual = 30 * time.Minute
 	}
@@ -723,6 +735,9 @@ func RunScns(cfg vsched.Config, top ...*Scn) *Result {
 			r, err := RunVariant(ctx, sc, ports[i])
 			o := res.Obs[i]
 			o.Run, o.Err, o.Done, o.EndNs = r, err, true, vsched.Now()
+			if len(chains) == 1 {
+				o.ThreadsLeft = vsched.LiveThreads()
+			}
 			sc.done = true
 		}
 		chain := func(c []int) {
